@@ -176,7 +176,7 @@ package dnsmsg
 //@     modifies msg[off0:len(msg)], obj(compression), scanner.label, scanner.labelOff, scanner.off, scanner.err
 //@     invariant sameSlice(scanner.n, n, 0, len(n)) && 0 <= scanner.off && scanner.off <= len(n) && scanner.err == nil
 //@     invariant off0 <= off && off <= len(msg)
-//@     invariant len(unsafeStr) == 0 || len(unsafeStr) == len(n)
+//@     invariant len(unsafeStr) == 0 || sameSlice(unsafeStr, n, 0, len(n))
 //@     invariant compression == nil || ptrsFit(compression)
 //@     invariant off == off0 + scanner.off
 //@     invariant compression == nil && !sameObj(n, msg) ==> bytesEq(msg, off0, n, 0, scanner.off)
